@@ -141,6 +141,36 @@ def strip_comments(text: str) -> str:
     return ''.join(out)
 
 
+def structure(text: str) -> str:
+    """The template as a list of `<indent>|<content>` lines: comments removed by the tokenizer, the text of every f-string / string
+    message after `ValueError(` masked, blank lines dropped, inner white space squashed -- but the INDENTATION of every line kept, so
+    that moving a statement into or out of a Python block, or appending code to a `raise` line, changes the text."""
+    t = strip_comments(text)
+    t = re.sub(r"(ValueError\()\s*f?'(?:[^'\\]|\\.)*'(?:\s*f?'(?:[^'\\]|\\.)*')*", r"\1f'...'", t, flags=re.S)
+    t = re.sub(r"(_warnings_\.warn\()'(?:[^'\\]|\\.)*'", r"\1'...'", t)
+    out = []
+    for ln in t.split('\n'):
+        if ln.strip():
+            out.append('%d|%s' % (len(ln) - len(ln.lstrip(' ')), ' '.join(ln.split())))
+    return '\n'.join(out) + '\n'
+
+
+STRUCT_DIR = os.path.join(os.path.dirname(os.path.abspath(__file__)), 'pins', 'c18_basej2_struct.d')
+
+
+def struct_variant(raw: str) -> typing.Optional[str]:
+    """name of the reviewed variant of base.j2 (pins/c18_basej2_struct.d/*.txt) whose structure equals that of the tree, or None"""
+    cur = structure(raw)
+    try:
+        names = sorted(os.listdir(STRUCT_DIR))
+    except OSError:
+        return None
+    for n in names:
+        if n.endswith('.txt') and open(os.path.join(STRUCT_DIR, n), encoding='utf-8').read() == cur:
+            return n[:-4]
+    return None
+
+
 def squash(s: str) -> str:
     return ' '.join(strip_comments(s).split())
 
@@ -225,6 +255,8 @@ def scan_template() -> typing.Dict[str, str]:
         if bytes_raise:
             raise Closed('assign_array: text guard in the pre-F-PY-ARRELEM shape')
         facts['t_text_guard'] = 'false'
+        facts['t_src_exact'] = 'false'
+        facts['exc_cast'] = 'false'
         facts['t_precheck_nd_only'] = 'false'
         facts['t_arr_precheck'] = 'false'
         facts['arrelem_quirk'] = 'true'
@@ -236,6 +268,16 @@ def scan_template() -> typing.Dict[str, str]:
             raise Closed('assign_array: the text guard is only half there (bytes branch raises: %s, conversion path rejects text: %s)'
                          % (bytes_raise, bool(mg)))
         facts['t_text_guard'] = b(bytes_raise)
+        # shape of the F-PY-NPSCALAR fix: every numeric element is checked exactly by the module-level helper _int_elements_ok_
+        mh = re.match(r"\{%- if t\.element_type is IntegerType %\} if not _int_elements_ok_\(" + SRC + ", " + rmin + ", " + rmax + r"\): "
+                      r"raise ValueError\(f'.*?'\) \{%- endif %\} ", rest)
+        facts['t_src_exact'] = b(bool(mh))
+        if mh:
+            rest = rest[mh.end():]
+        mt = re.match(r"try: (_a_ = _np_\.array\(" + SRC + ", " + NST + r"\)\.flatten\(\)) except OverflowError as _ex_: raise ValueError\(f'[^']*'\) from None ", rest)
+        facts['exc_cast'] = b(bool(mt))
+        if mt:
+            rest = mt.group(1) + ' ' + rest[mt.end():]
         ms = re.match(r"(\{%- if t\.element_type is IntegerType %\} _s_ = _np_\.asarray\(" + SRC + r"\) "
                       r"(?:if _s_\.size and _s_\.dtype\.kind in 'iufO' and not \(" + rmin + r" <= _s_\.min\(\) and _s_\.max\(\) <= " + rmax + r"\): "
                       r"|((?:if _s_\.size and _s_\.dtype\.kind in 'iufO': "
@@ -252,9 +294,11 @@ def scan_template() -> typing.Dict[str, str]:
                       r"raise ValueError\(f'.*?'\) \{%- endif %\} self\._" + FID + r" = _a_ assert ", rest)
         if not ms:
             raise Closed('assign_array: element-checked slow path / element checks / final store not recognised')
-        facts['t_arr_precheck'] = b(ms.group(1) is not None)
-        facts['precheck_exact'] = b(ms.group(2) is not None)     # bounds compared as Python numbers (.item()), not in the source dtype
-        facts['t_precheck_nd_only'] = b(ms.group(3) is not None)  # float arm for ndarray sources only (lists are not inferred via float64)
+        if mh and ms.group(1) is not None:
+            raise Closed('assign_array: both the helper check and the inline source check')
+        facts['t_arr_precheck'] = b(ms.group(1) is not None or bool(mh))
+        facts['precheck_exact'] = b(ms.group(2) is not None or bool(mh))     # bounds compared as Python numbers, not in the source dtype
+        facts['t_precheck_nd_only'] = b(ms.group(3) is not None or bool(mh))  # (vacuous with t_src_exact: no float64 inference is trusted)
         facts['t_len_slow'] = b(ms.group(4) is not None)
         facts['arrelem_quirk'] = 'false'
         facts['elem_float_below'] = ms.group(5)
@@ -280,25 +324,30 @@ def scan_template() -> typing.Dict[str, str]:
     rng = r"\{\{ f\.data_type\.inclusive_value_range\.min \}\}(\.0)? <= x <= \{\{ f\.data_type\.inclusive_value_range\.max \}\}(\.0)?"
     if '{%' in s_int:
         raise Closed('setter: integer branch contains template logic')
-    if re.fullmatch(doc + r"x = int\(x\) if " + rng + r": self\._" + FID + r" = x else: raise ValueError\(f'.*'\)", s_int):
+    mi_ = re.fullmatch(doc + r"(?:x = int\(x\)|(try: x = int\(x\) except OverflowError: raise ValueError\(f'[^']*'\) from None)) if " + rng
+                       + r": self\._" + FID + r" = x else: raise ValueError\(f'[^']*'\)", s_int)
+    if mi_:
+        facts['exc_int'] = b(mi_.group(1) is not None)
         facts['t_int_check'] = 'true'
     elif re.fullmatch(doc + r"(x = int\(x\) self\._" + FID + r" = x|self\._" + FID + r" = int\(x\))", s_int):
         facts['t_int_check'] = 'false'
     else:
         raise Closed('setter: integer branch not recognised')
-    mf = re.fullmatch(doc + r"\{%- if f\.data_type\.bit_length < (\d+) %\} (.*?) \{%- else %\} self\._" + FID
-                      + r" = float\(x\) \{%- endif %\}", s_float)
+    mf = re.fullmatch(doc + r"\{%- if f\.data_type\.bit_length < (\d+) %\} (.*?) \{%- else %\} (?:self\._" + FID
+                      + r" = float\(x\)|(try: self\._" + FID + r" = float\(x\) except OverflowError: raise ValueError\(f'[^']*'\) from None)) \{%- endif %\}", s_float)
     if not mf:
         raise Closed('setter: float branch not recognised')
     facts['t_float_check_below'] = mf.group(1)
     inner = mf.group(2)
-    mi = re.fullmatch(r"x = float\(x\) in_range = " + rng + r" if in_range( or not _np_\.isfinite\(x\))?: self\._" + FID
+    facts['exc_float64'] = b(mf.group(3) is not None)
+    mi = re.fullmatch(r"(?:x = float\(x\)|(try: x = float\(x\) except OverflowError: raise ValueError\(f'[^']*'\) from None)) in_range = " + rng + r" if in_range( or not _np_\.isfinite\(x\))?: self\._" + FID
                       + r" = x else: raise ValueError\(f'.*'\)", inner)
     if mi:
-        if mi.group(1) != '.0' or mi.group(2) != '.0':
+        if mi.group(2) != '.0' or mi.group(3) != '.0':
             raise Closed('setter: float range bounds are not rendered as floats')
+        facts['exc_float'] = b(mi.group(1) is not None)
         facts['t_float_check'] = 'true'
-        facts['t_float_nonfinite_ok'] = b(mi.group(3) is not None)
+        facts['t_float_nonfinite_ok'] = b(mi.group(4) is not None)
     elif re.fullmatch(r"(x = float\(x\) self\._" + FID + r" = x|self\._" + FID + r" = float\(x\))", inner):
         facts['t_float_check'] = 'false'
         facts['t_float_nonfinite_ok'] = 'true'
@@ -371,7 +420,7 @@ def scan_template() -> typing.Dict[str, str]:
 
 ORDER = ['t_int_check', 't_float_check', 't_float_nonfinite_ok', 't_float_check_below', 't_cmp_fixed', 't_cmp_var', 't_len_bytes',
          't_len_nd', 't_len_slow', 't_bytes_max_w', 't_comp_isinstance', 't_union_clear_others', 't_union_clear_after',
-         't_union_ctor_count', 't_arr_precheck', 't_precheck_nd_only', 't_text_guard']
+         't_union_ctor_count', 't_arr_precheck', 't_precheck_nd_only', 't_src_exact', 't_text_guard']
 
 
 def gen_pyobj() -> typing.Tuple[bool, str]:
@@ -390,23 +439,17 @@ def gen_pyobj() -> typing.Tuple[bool, str]:
     if missing:
         gen.write_if_changed(OUT, gen.HEADER % BASE_J2 + '(* translator failed closed: facts missing %s *)\n' % missing)
         return False, 'failed closed: facts missing %r' % missing
-    # every line of base.j2 outside the three scanned regions must equal the pinned text (tools/translators/pins/c18_basej2_rest.txt:
-    # header, imports, annotation macros, printable_field_representation, class head, constants, __init__ signature and docstring,
-    # deprecation warning, getters, _serialize_/_deserialize_ wrappers (C01/C02 own their bodies), __repr__, _FIXED_PORT_ID_,
-    # _EXTENT_BYTES_, _MODEL_, _restore_constant_, {% block contents %}); update with `python -m tools.translators.gen_c18 --pin-rest`
-    pin_path = os.path.join(os.path.dirname(os.path.abspath(__file__)), 'pins', 'c18_basej2_rest.txt')
-    try:
-        pinned_rest = open(pin_path, encoding='utf-8').read()
-    except OSError:
-        pinned_rest = None
-    if pinned_rest is None or pinned_rest.strip() != facts['_rest'].strip():
-        gen.write_if_changed(OUT, gen.HEADER % BASE_J2 + '(* translator failed closed: base.j2 changed outside the scanned regions *)\n')
-        where = ''
-        if pinned_rest is not None:
-            a, b_ = pinned_rest.strip(), facts['_rest'].strip()
-            k = next((i for i in range(min(len(a), len(b_))) if a[i] != b_[i]), min(len(a), len(b_)))
-            where = ': first difference near %r' % b_[max(0, k - 40):k + 60]
-        return False, 'failed closed: base.j2 changed outside the scanned regions (pins/c18_basej2_rest.txt)' + where
+    # EVERY line of base.j2 is accounted for: the comment-free, message-masked, INDENTATION-PRESERVING structure of the whole template
+    # must equal one of the reviewed variants in pins/c18_basej2_struct.d/ (add one with `python -m tools.translators.gen_c18
+    # --pin-struct <name>` after reviewing the diff); the patterns above only read the facts off a template of a known structure
+    variant = struct_variant(gen.read_repo(BASE_J2))
+    if variant is None:
+        gen.write_if_changed(OUT, gen.HEADER % BASE_J2 + '(* translator failed closed: base.j2 has none of the reviewed structures *)\n')
+        return False, 'failed closed: the structure of base.j2 (indentation-preserving, comments and messages masked) equals none of pins/c18_basej2_struct.d/*.txt'
+    excs = [facts.get(k, 'false') for k in ('exc_cast', 'exc_int', 'exc_float', 'exc_float64')]
+    if len(set(excs)) != 1:
+        gen.write_if_changed(OUT, gen.HEADER % BASE_J2 + '(* translator failed closed: OverflowError is converted in some places only *)\n')
+        return False, 'failed closed: OverflowError -> ValueError conversion present in some places only: %r' % excs
     text = HEAD + pw_text + '\nDefinition tmpl_gen : tmpl := {|\n' + ';\n'.join('  %s := %s' % (k, facts[k]) for k in ORDER) + '\n|}.\n'
     text += ('\n(* true: assign_array stores whatever NumPy converted (F-PY-ARRELEM); false: every branch binds a local that is checked\n'
              '   against the element range (integers of non-standard width on all paths, finite float16/32 values on the\n'
@@ -414,6 +457,9 @@ def gen_pyobj() -> typing.Tuple[bool, str]:
     text += ('\n(* true: the range check of the source compares Python numbers (exact, as int_leaf_ok of Gen/PyObj.v does); false: it compares\n'
              '   in the dtype of the source array, where a bound may be rounded (F-PY-ARRWRAP-FPREC) or there is no such check *)\n'
              'Definition arr_precheck_exact_gen : bool := %s.\n' % facts.get('precheck_exact', 'false'))
+    text += ('\n(* true: an OverflowError of int() / float() / np.array() on a value beyond the representable range is re-raised as the documented\n'
+             '   ValueError (scalar setters and the array conversion) *)\nDefinition exc_overflow_wrapped_gen : bool := %s.\n' % excs[0])
+    text += '\n(* reviewed structure of base.j2 this tree has: pins/c18_basej2_struct.d/%s.txt *)\n' % variant
     gen.write_if_changed(OUT, text)
     return True, 'pick_width over %r; template facts %s arrelem_quirk=%s' % (widths, ' '.join('%s=%s' % (k[2:], facts[k]) for k in ORDER), facts['arrelem_quirk'])
 
@@ -491,8 +537,12 @@ def gen_pyalias() -> typing.Tuple[bool, str]:
         return closed('body is not `tys = list(tys); return [<pair> for name, major in <groups>]`')
     lc = body[1].value
     g = lc.generators[0]
-    if g.ifs or g.is_async or not (isinstance(g.target, ast.Tuple) and [un(e) for e in g.target.elts] == ['name', 'major']):
+    if g.is_async or not (isinstance(g.target, ast.Tuple) and [un(e) for e in g.target.elts] == ['name', 'major']):
         return closed('loop variables are not `name, major`')
+    guard_src = "f'{name}_{major}' not in {f'{t.short_name}_{t.version.major}_{t.version.minor}' for t in %s}" % arg
+    if [un(i_) for i_ in g.ifs] not in ([], [guard_src]):
+        return closed('unsupported condition on the aliases: ' + '; '.join(un(i_) for i_ in g.ifs)[:120])
+    guarded = bool(g.ifs)
     if un(g.iter) != 'sorted({(x.short_name, x.version.major) for x in %s})' % arg:
         return closed('groups are not sorted({(x.short_name, x.version.major) for x in tys}): ' + un(g.iter)[:80])
     if not (isinstance(lc.elt, ast.Tuple) and len(lc.elt.elts) == 2 and un(lc.elt.elts[0]) == "f'{name}_{major}'"):
@@ -512,13 +562,16 @@ def gen_pyalias() -> typing.Tuple[bool, str]:
     text = head + ('From Coq Require Import List Arith Bool.\nFrom Verif Require Import PyAlias.\nImport ListNotations.\n\n'
                    '(* [(f"{name}_{major}", max((t for t in tys if t.short_name == name and t.version.major == major), key=lambda x: int(x.version.minor)))\n'
                    '    for name, major in sorted({(x.short_name, x.version.major) for x in tys})] *)\n'
+                   '(* true: an alias whose identifier `<name>_<major>` equals the identifier `<name>_<major>_<minor>` of a class of the namespace\n'
+                   '   is not emitted (fix of F-PY-ALIASCLASH) *)\n'
+                   'Definition alias_guard_gen : bool := %s.\n\n'
                    'Definition aliases_gen (tys : list ver) : list (nat * nat * ver) :=\n'
                    '  flat_map (fun nm =>\n'
                    '              match py_max_by v_minor (filter (fun t => Nat.eqb (v_name t) (fst nm) && Nat.eqb (v_major t) (snd nm)) tys) with\n'
                    '              | Some t => [(fst nm, snd nm, t)]\n'
                    '              | None => []                      (* max() of an empty iterable raises; cannot happen: the group has a member *)\n'
                    '              end)\n'
-                   '           (sorted_set (map (fun x => (v_name x, v_major x)) tys)).\n')
+                   '           (sorted_set (map (fun x => (v_name x, v_major x)) tys)).\n') % ('true' if guarded else 'false')
     gen.write_if_changed(OUT_ALIAS, text)
     return True, 'filter_newest_minor_version_aliases: max by int(version.minor) per (short_name, version.major)'
 
@@ -528,6 +581,11 @@ GENERATORS = {'pyalias': gen_pyalias, 'pyobj': gen_pyobj, 'pin_c18support': pin_
 
 if __name__ == '__main__':
     import sys
+    if len(sys.argv) == 3 and sys.argv[1] == '--pin-struct':     # development time only: accept the current structure as a reviewed variant
+        os.makedirs(STRUCT_DIR, exist_ok=True)
+        with open(os.path.join(STRUCT_DIR, sys.argv[2] + '.txt'), 'w', encoding='utf-8') as fh:
+            fh.write(structure(gen.read_repo(BASE_J2)))
+        print('pinned structure variant', sys.argv[2])
     if sys.argv[1:] == ['--pin-rest']:      # development time only: accept the current text outside the scanned regions
         f_ = scan_template()
         with open(os.path.join(os.path.dirname(os.path.abspath(__file__)), 'pins', 'c18_basej2_rest.txt'), 'w', encoding='utf-8') as fh:
